@@ -3,7 +3,7 @@
 # replays under /tmp/bg/<PROP>-<seed>/ so that the registered checks' files are not disturbed.
 P=$1; SEED=${2:-1}; TIER=${3:-thorough}
 D=/tmp/bg/$P-$SEED; mkdir -p $D/bin/race $D/evidence
-cp /verif/.bin/vcheck /verif/.bin/vcheck-race /verif/.bin/poolsim.test $D/bin/ 2>/dev/null
+cp /tmp/bg/bincur/vcheck /tmp/bg/bincur/vcheck-race /tmp/bg/bincur/poolsim.test $D/bin/ 2>/dev/null  # binaries frozen from a clean tree (refresh: ./setup.sh && cp .bin/* /tmp/bg/bincur/)
 cd /verif
 VERIF_OUT=$D VERIF_SEED=$SEED nice -n 10 $D/bin/vcheck run $P $TIER > $D/log 2>&1
 echo "exit=$?" >> $D/log
